@@ -285,6 +285,15 @@ def _cases(rng, ctx):
     for a, b in ((0, 1), (0, MS_DAY), (MS_MAR1 - MS_DAY, MS_MAR1), (MS_MAR1 - 1, MS_MAR1), (MS_MAR1, MS_MAR1 + 1)):
         out.append({'kind': 'cmp', 'a': a, 'b': b})
         out.append({'kind': 'cmp', 'a': b, 'b': a})
+    # -- a plain NUMBER against a date-time, on either side: the date acts through its serial (integers and floats, equal to the
+    #    whole-day part, to the exact serial (times of day in eighths of a day are exact doubles), a day later)
+    for i in range(300 * scale):
+        day = rng.randrange(MS_MAR1 // MS_DAY, MS_END // MS_DAY - 1)
+        j = rng.randrange(0, 8)
+        ms = day * MS_DAY + j * (MS_DAY // 8)
+        ser = day + 2
+        n = rng.choice([ser, float(ser), ser + j / 8.0, ser + 1, ser - 1, ser + (j + 1) / 8.0])
+        out.append({'kind': 'cmpn', 'ms': ms, 'n': n, 'side': rng.choice(['l', 'r'])})
     # -- date + n, date - n
     ndays = MS_END // MS_DAY
     for i in range(500 * scale):
@@ -385,6 +394,8 @@ def request(c):
         return 'date.parse (f %d %d)' % (c['num'], c['den'])
     if k == 'cmp':
         return batch(['x' + op + 'y' for op in CMPS], env_for(x=dt_of_ms(c['a']), y=dt_of_ms(c['b'])))
+    if k == 'cmpn':
+        return batch([('nn' + op + 'x') if c['side'] == 'l' else ('x' + op + 'nn') for op in CMPS], env_for(x=dt_of_ms(c['ms']), nn=c['n']))
     if k == 'add':
         return batch(['x+n', 'n+x', 'x-n'], env_for(x=dt_of_ms(c['ms']), n=c['n']))
     if k == 'sub':
@@ -472,6 +483,9 @@ def _impl(c):
         if c['a'] % MS_DAY == 0 and c['b'] % MS_DAY == 0:
             r['lit'] = [run(date_lit(da) + op + date_lit(db)) for op in CMPS]
         return r
+    if k == 'cmpn':
+        d = dt_of_ms(c['ms'])
+        return {'var': [run(('nn' + op + 'x') if c['side'] == 'l' else ('x' + op + 'nn'), x=d, nn=c['n']) for op in CMPS]}
     if k == 'add':
         d = dt_of_ms(c['ms'])
         n = c['n']
@@ -717,6 +731,16 @@ def oracle(c, r):
                     return '%s%s%s with x=%s (serial %r), y=%s (serial %r) gives %r; the serials give %r' % (
                         l, op, rr, da, sa, db, sb, rec_value(rec), w)
         return None
+    if k == 'cmpn':
+        sx = ref_serial_ms(c['ms'])
+        n = Fraction(c['n'])
+        a, b = (n, sx) if c['side'] == 'l' else (sx, n)
+        want = [a < b, a == b, a > b, a <= b, a >= b, a != b]
+        for op, rec, w in zip(CMPS, r['var'], want):
+            if rec['error'] is not None or rec['result'] is not w:
+                return '%s with x=%s (serial %s) and nn=%r gives %r; the serial gives %r' % (
+                    ('nn' + op + 'x') if c['side'] == 'l' else ('x' + op + 'nn'), dt_of_ms(c['ms']), float(sx), c['n'], rec_value(rec), w)
+        return None
     if k == 'add':
         ms, n = c['ms'], c['n']
         d = dt_of_ms(ms)
@@ -808,7 +832,7 @@ def agree(c, r, model_ans):
         return fx.value_matches(fx.parse_sexp(model_ans), r['s'], ulps=4) is True
     if k == 'parse':
         return fx.value_matches(fx.parse_sexp(model_ans), r['p']) is True
-    if k == 'cmp':
+    if k in ('cmp', 'cmpn'):
         return recs_agree(model_ans, r['var'], True)
     if k == 'add':
         return recs_agree(model_ans, r['var'], c['ms'] % MS_DAY == 0)
